@@ -376,7 +376,14 @@ func cmdCheck(args []string) {
 				inconclusive = append(inconclusive, err.Error())
 				continue
 			}
-			res := e.Explore(h, *workers, 0, 0)
+			budget := 900
+			if v, ok := params["_budget_s"]; ok {
+				budget = v
+			}
+			res := e.Explore(h, *workers, 0, time.Duration(budget)*time.Second)
+			if res.MaxPaths {
+				inconclusive = append(inconclusive, fmt.Sprintf("%s: exploration stopped after the %d s budget with paths left", hc.Name, budget))
+			}
 			fmt.Println(res.Summary())
 			ev := hEv{Harness: hc.Name, Params: params, Bound: hc.Bound, Paths: res.Paths, Status: res.Status,
 				Decisions: res.Decisions, Obligs: res.AssertQ + res.AssertTriv, Discharged: res.AssertOK, Trivial: res.AssertTriv,
